@@ -17,6 +17,7 @@ PROPS = {
     'C01': ('c01', 'proof', ['SUNalg', 'instantiate']),
     'C02': ('c02', 'proof', ['SUNalg', 'instantiate']),
     'C03': ('c03', 'proof', ['SUNalg', 'instantiate']),
+    'C13': ('c13', 'proof', ['SUNalg']),
 }
 
 
